@@ -61,3 +61,33 @@ def report(run, rule, name):
         for m in msgs:
             run.ob(rule, '%s [%s %s %s]' % (m[6:], cxx, std, v), False, key=m[6:])
         run.ob(rule, 'type-level unit %s: %d static_assert instance(s) hold [%s %s %s]' % (name, count - len(failed), cxx, std, v), True)
+
+
+NEG_ERR = re.compile(r'w_neg\.cpp:(\d+):\d+: (?:fatal )?error: (.*)')
+
+
+def must_not_compile(run, rule):
+    """witness/w_neg.cpp: every line marked EXPECT-ERROR produces a diagnostic, no unmarked line does (type-level clause:
+    the operations the properties rely on being impossible really are rejected by the compiler)."""
+    src = os.path.join(facts.WITNESS_DIR, 'w_neg.cpp')
+    with open(src) as f:
+        lines = f.read().splitlines()
+    expected = {i + 1: l.split('EXPECT-ERROR', 1)[1].strip() for i, l in enumerate(lines) if '// EXPECT-ERROR ' in l}
+    combos = [('clang++', 'c++11', 'inc')] if run.tier == 'quick' else [('clang++', 'c++11', 'inc'), ('g++', 'c++17', 'inc'), ('clang++', 'c++20', 'dev')]
+    for cxx, std, v in combos:
+        cmd = [cxx, '-std=' + std, '-fsyntax-only', '-I' + facts.WITNESS_DIR] + facts.variant_flags(v) + [src]
+        cmd.insert(1, '-ferror-limit=0' if cxx.startswith('clang') else '-fmax-errors=0')
+        p = subprocess.run(cmd, stdout=subprocess.PIPE, stderr=subprocess.STDOUT, universal_newlines=True)
+        if p.returncode not in (0, 1):
+            raise AnalysisBroken('compiler crashed on w_neg.cpp')
+        got = {}
+        for l in p.stdout.splitlines():
+            m = NEG_ERR.search(l)
+            if m:
+                got.setdefault(int(m.group(1)), []).append(m.group(2)[:120])
+        stray = sorted(set(got) - set(expected))
+        if stray:
+            raise AnalysisBroken('w_neg.cpp has diagnostics on unmarked lines %s: %s' % (stray, got[stray[0]][0]))
+        for ln, why in sorted(expected.items()):
+            run.ob(rule, 'must not compile [%s %s %s]: %s' % (cxx, std, v, why), ln in got, where='witness/w_neg.cpp:%d' % ln,
+                   detail=None if ln in got else lines[ln - 1].strip()[:100], key='compiles although it must not: ' + why)
